@@ -1,11 +1,28 @@
 #include "parse_stub.h"
 /* buffer-level stubs: what matters for C12 is that every access stays inside its object; contents are arbitrary.
  * (CBMC's own memcpy model copies byte by byte and runs out of memory on symbolic lengths.) */
+/* ghost monitor (C10): which buffers flow where.  Contents are not modelled; provenance is, as (object, offset)
+ * pairs taken at the time of the call (the buffers are freed before the function returns). */
+#define LOGN 8
+typedef struct { size_t obj; long off; } loc_t;
+#define LOC(p) ((loc_t){ __CPROVER_POINTER_OBJECT(p), __CPROVER_POINTER_OFFSET(p) })
+#define AT(l, o, k) ((l).obj == (o).obj && (l).off == (o).off + (long)(k))
+size_t g_ncpy, g_ncmp; loc_t g_cpy_d[LOGN], g_cpy_s[LOGN]; size_t g_cpy_n[LOGN];
+loc_t g_cmp_a[LOGN], g_cmp_b[LOGN]; size_t g_cmp_n[LOGN]; int g_cmp_r[LOGN];
+loc_t g_exp_buf, g_g_out, g_g_in, g_h_out, g_h_in; size_t g_exp_word, g_g_osize, g_g_isize, g_h_size;
+loc_t g_last_cpy_d, g_last_cpy_s, g_last_cmp_a, g_last_cmp_b, g_set_p; size_t g_last_cpy_n, g_last_cmp_n, g_set_n; int g_last_cmp_r, g_set_c;
+static inline void *verif_memset(void *d, int c, size_t n)
+{ __CPROVER_assert(n == 0 || __CPROVER_w_ok(d, n), "memset: destination holds n octets"); g_set_p = LOC(d); g_set_n = n; g_set_c = c; if (n > 0) __CPROVER_havoc_object(d); return d; }
+#define memset verif_memset
 static inline void *verif_memcpy(void *d, const void *s, size_t n)
 { __CPROVER_assert(n == 0 || __CPROVER_r_ok(s, n), "memcpy: source holds n octets"); __CPROVER_assert(n == 0 || __CPROVER_w_ok(d, n), "memcpy: destination holds n octets");
+  g_last_cpy_d = LOC(d); g_last_cpy_s = LOC(s); g_last_cpy_n = n;
+  if (g_ncpy < LOGN) { g_cpy_d[g_ncpy] = LOC(d); g_cpy_s[g_ncpy] = LOC(s); g_cpy_n[g_ncpy] = n; } g_ncpy++;
   if (n > 0) __CPROVER_havoc_object(d); return d; }
 static inline int verif_memcmp(const void *a, const void *b, size_t n)
-{ __CPROVER_assert(n == 0 || __CPROVER_r_ok(a, n), "memcmp: first buffer holds n octets"); __CPROVER_assert(n == 0 || __CPROVER_r_ok(b, n), "memcmp: second buffer holds n octets"); return (int)nondet_ulong(); }
+{ __CPROVER_assert(n == 0 || __CPROVER_r_ok(a, n), "memcmp: first buffer holds n octets"); __CPROVER_assert(n == 0 || __CPROVER_r_ok(b, n), "memcmp: second buffer holds n octets");
+  int r = (int)nondet_ulong(); g_last_cmp_a = LOC(a); g_last_cmp_b = LOC(b); g_last_cmp_n = n; g_last_cmp_r = r;
+  if (g_ncmp < LOGN) { g_cmp_a[g_ncmp] = LOC(a); g_cmp_b[g_ncmp] = LOC(b); g_cmp_n[g_ncmp] = n; g_cmp_r[g_ncmp] = r; } g_ncmp++; return r; }
 #define memcpy verif_memcpy
 #define memcmp verif_memcmp
 enum { GCRY_MD_SHA256 = 8, TMCG_GCRY_MD_ALGO = 8 };
@@ -14,9 +31,9 @@ unsigned int ghost_dlen;   /* the digest length of this run (arbitrary in 1..64,
 static inline unsigned int gcry_md_get_algo_dlen(int algo) { (void)algo; __CPROVER_assume(1 <= ghost_dlen && ghost_dlen <= 64); return ghost_dlen; }
 /* expandable hash g() and hash h() of mpz_shash.cc: write exactly osize (resp. digest length) octets, read isize */
 static inline void tmcg_g(unsigned char *output, size_t osize, const unsigned char *input, size_t isize)
-{ __CPROVER_assert(osize == 0 || __CPROVER_w_ok(output, osize), "tmcg_g: output buffer holds osize octets"); __CPROVER_assert(isize == 0 || __CPROVER_r_ok(input, isize), "tmcg_g: input buffer holds isize octets"); if (osize > 0) __CPROVER_havoc_object(output); }
+{ __CPROVER_assert(osize == 0 || __CPROVER_w_ok(output, osize), "tmcg_g: output buffer holds osize octets"); __CPROVER_assert(isize == 0 || __CPROVER_r_ok(input, isize), "tmcg_g: input buffer holds isize octets"); g_g_out = LOC(output); g_g_osize = osize; g_g_in = LOC(input); g_g_isize = isize; if (osize > 0) __CPROVER_havoc_object(output); }
 static inline void tmcg_h(unsigned char *output, const unsigned char *input, size_t size, int algo)
-{ (void)algo; __CPROVER_assert(__CPROVER_w_ok(output, ghost_dlen), "tmcg_h: output buffer holds one digest"); __CPROVER_assert(size == 0 || __CPROVER_r_ok(input, size), "tmcg_h: input buffer holds size octets"); __CPROVER_havoc_object(output); }
+{ (void)algo; __CPROVER_assert(__CPROVER_w_ok(output, ghost_dlen), "tmcg_h: output buffer holds one digest"); __CPROVER_assert(size == 0 || __CPROVER_r_ok(input, size), "tmcg_h: input buffer holds size octets"); g_h_out = LOC(output); g_h_in = LOC(input); g_h_size = size; __CPROVER_havoc_object(output); }
 /* mpz_export (GMP manual): writes count words of `size` octets, count = ceil(bits(op) / (8*size)) for op != 0.
  * The destination must hold count*size octets -- ASSERTED here. */
 static inline void *mpz_export(void *rop, size_t *countp, int order, size_t size, int endian, size_t nails, mpz_srcptr op)
@@ -26,6 +43,7 @@ static inline void *mpz_export(void *rop, size_t *countp, int order, size_t size
   __CPROVER_assume(bits >= 1 && bits < ((unsigned long)1 << 40));
   size_t words = op->v == 0 ? 0 : (bits + 8 * size - 1) / (8 * size);
   __CPROVER_assert(words == 0 || __CPROVER_w_ok(rop, words * size), "mpz_export: destination holds count*size octets (GMP writes that many)");
+  g_exp_buf = LOC(rop); g_exp_word = size;
   if (words > 0) __CPROVER_havoc_object(rop);
   if (countp) *countp = words;
   return rop;
@@ -36,3 +54,14 @@ static inline size_t TMCG_PublicKey__keyid_size(TMCG_PublicKey *self, str_t *s) 
 static inline str_t TMCG_PublicKey__keyid(TMCG_PublicKey *self, size_t n) { (void)self; (void)n; str_t r; r.data = 0; r.size = 0; r.cap = 0; r.absid = (long)nondet_ulong(); return r; }
 static inline _Bool str_t__op_ne_str(str_t *a, str_t *b) { (void)a; (void)b; return nondet_bool(); }
 #define STRMAX 64
+#define PRAB_MONITOR g_last_cpy_d, g_last_cpy_s, g_last_cmp_a, g_last_cmp_b, g_set_p, g_last_cpy_n, g_last_cmp_n, g_set_n, g_last_cmp_r, g_set_c, g_ncpy, g_ncmp, __CPROVER_object_whole(g_cpy_d), __CPROVER_object_whole(g_cpy_s), __CPROVER_object_whole(g_cpy_n), \
+  __CPROVER_object_whole(g_cmp_a), __CPROVER_object_whole(g_cmp_b), __CPROVER_object_whole(g_cmp_n), __CPROVER_object_whole(g_cmp_r), \
+  g_exp_buf, g_g_out, g_g_in, g_h_out, g_h_in, g_exp_word, g_g_osize, g_g_isize, g_h_size
+#define MNSIZE(self) ((size_t)(UF(bits)(V((self)->m)) / 8))
+static inline size_t TMCG_SecretKey__keyid_size(TMCG_SecretKey *self, str_t *s) { (void)self; (void)s; return nondet_ulong(); }
+static inline str_t TMCG_SecretKey__keyid(TMCG_SecretKey *self, size_t n) { (void)self; (void)n; str_t r; r.data = 0; r.size = 0; r.cap = 0; r.absid = (long)nondet_ulong(); return r; }
+/* number theory of the secret-key holder: arbitrary results (decided elsewhere, C09) */
+static inline _Bool tmcg_mpz_qrmn_p(mpz_srcptr a, mpz_srcptr p, mpz_srcptr q) { (void)a; (void)p; (void)q; return nondet_bool(); }
+static inline void tmcg_mpz_sqrtmn_fast_all(mpz_ptr r0, mpz_ptr r1, mpz_ptr r2, mpz_ptr r3, mpz_srcptr a, mpz_srcptr p, mpz_srcptr q, mpz_srcptr m,
+  mpz_srcptr up, mpz_srcptr vq, mpz_srcptr pa, mpz_srcptr qa)
+{ (void)a; (void)p; (void)q; (void)m; (void)up; (void)vq; (void)pa; (void)qa; r0->v = (long)nondet_ulong(); r1->v = (long)nondet_ulong(); r2->v = (long)nondet_ulong(); r3->v = (long)nondet_ulong(); }
